@@ -230,6 +230,46 @@ def run(rep):
     except Exception as e:  # Anchor etc.
         rep.error("P4 could not evaluate the size terms: %s" % e)
 
+    # ---------------- P5 refusals that must not be unwrapped
+    rep.rule(
+        "P5",
+        "refusals that are part of the design are not turned into panics: in bodies reachable from the entry points the Result of `Variant::try_empty` (Err for Id / Enum / Function / Any and every composite holding one) "
+        "never flows directly into Result::unwrap / expect (MIR def-use through moves)",
+        floor=1,
+        necessary="`SELECT a FROM t WHERE FALSE` on a table with an Id or Enum column panicked in DataType::filter_by_value (fixed defect): a refusal by design must stay a value",
+    )
+    NO_UNWRAP = re.compile(r"as data_type::Variant>::try_empty$|^data_type::Variant::try_empty$")
+    UNWRAP = re.compile(r"(Result|Option)::<.*>::(unwrap|expect)$|::(unwrap|expect)$")
+    for b in mir.bodies:
+        if b["path"] not in lp:
+            continue
+        defcall, moves = {}, {}
+        for bl in b["blocks"]:
+            for st in bl["s"]:
+                dst, rv = st[0], st[1]
+                if dst[1] == "" and rv[0] == "use" and rv[1][0] in ("m", "c") and rv[1][1][1] == "":
+                    moves[dst[0]] = rv[1][1][0]
+            t = bl["t"]
+            if t[0] == "call" and isinstance(t[1], int) and t[3][1] == "":
+                defcall[t[3][0]] = (mir.callees[t[1]], t[5])
+        users = {}
+        for bl in b["blocks"]:
+            t = bl["t"]
+            if t[0] == "call" and isinstance(t[1], int) and t[2] and t[2][0][0] in ("m", "c"):
+                cur, hops = t[2][0][1][0], 0
+                while cur in moves and hops < 10:
+                    cur, hops = moves[cur], hops + 1
+                users.setdefault(cur, []).append((mir.callees[t[1]], t[5]))
+        for loc, (cal, line) in defcall.items():
+            if not (NO_UNWRAP.search(cal["path"]) or NO_UNWRAP.search(cal.get("orig", "") or "")):
+                continue
+            key = "%s|try_empty" % b["path"]
+            us = [u for u, _l in users.get(loc, [])]
+            bad = [u["path"] for u in us if UNWRAP.search(u["path"]) and ("Result" in u["path"] or "Option" in u["path"])]
+            rep.instance("P5", key, {"in": b["path"], "result_used_by": [u["path"][-50:] for u in us][:4]})
+            if bad:
+                rep.violation("P5", key, "the Result of try_empty is unwrapped (%s): types without an empty form (Id, Enum, Any, structs holding one) panic here" % bad[0][-40:], "%s:%d" % (b["file"], line))
+
     # ---------------- E1 / E2 dispatch exhaustiveness
     rep.rule(
         "E1",
